@@ -8,12 +8,12 @@ FAILS = ["none", "resolve", "before", "aps", "init", "after", "early"]
 
 
 def scenario(n, single, slice_, lazy=(), wrap=None, fail=None, self_opt=None, slice_opt=None, order=None,
-             reg_order=None, lookups=(), seed=0, sid="", sparse=False, procs=(), mode=None):
+             reg_order=None, lookups=(), seed=0, sid="", sparse=False, procs=(), mode=None, quiet=False):
     return dict(id=sid, n=n, single=[sorted(x) for x in single], selfOpt=list(self_opt or [False] * n),
                 slice=[sorted(x) for x in slice_], sliceOpt=list(slice_opt or [False] * n), lazy=sorted(lazy),
                 wrap=list(wrap or ["none"] * n), fail=list(fail or ["none"] * n),
                 order=list(order or range(1, n + 1)), regOrder=list(reg_order or range(1, n + 1)),
-                lookups=list(lookups), seed=seed, sparse=sparse, procs=list(procs), mode=list(mode or ["normal"] * n))
+                lookups=list(lookups), seed=seed, sparse=sparse, procs=list(procs), mode=list(mode or ["normal"] * n), quiet=quiet)
 
 
 def rand_scenario(rng, n, p_edge=0.35, p_slice=0.3, wraps=False, fails=False, lazies=False, lookups=0,
@@ -54,7 +54,7 @@ def rand_scenario(rng, n, p_edge=0.35, p_slice=0.3, wraps=False, fails=False, la
             if wrap[i] == "none" and rng.random() < modes:
                 md[i] = rng.choice(["beforeNil", "shortcut"])
     return scenario(n, single, slc, lazy, wrap, fail, self_opt, slice_opt, order, reg, lk,
-                    seed=rng.randint(0, 2 ** 31), sid=sid, procs=pr, mode=md)
+                    seed=rng.randint(0, 2 ** 31), sid=sid, procs=pr, mode=md, quiet=rng.random() < 0.3)
 
 
 def shaped(rng, n, shape, **kw):
@@ -102,7 +102,7 @@ def shaped(rng, n, shape, **kw):
             single[h].pop()
     order = list(range(1, n + 1)); rng.shuffle(order)
     reg = list(range(1, n + 1)); rng.shuffle(reg)
-    return scenario(n, single, slc, order=order, reg_order=reg, seed=rng.randint(0, 2 ** 31), sparse=n > 8, **kw)
+    return scenario(n, single, slc, order=order, reg_order=reg, seed=rng.randint(0, 2 ** 31), sparse=n > 8, quiet=rng.random() < 0.3, **kw)
 
 
 def tla_set(xs):
